@@ -13,6 +13,7 @@ CONSTANTS
   HWs = {1}
   Pids = {1, 2, 3, 4, 5, 6}
   MaxUnrep = 1000
+  Epochs = {1, 2, 3, 4, 5, 6}
   ProbeIds <- SimProbeIds
   ProbeFroms <- SimProbeFroms
   ProbeNos <- SimProbeNos
